@@ -1,7 +1,7 @@
 import PqV.Impl.Access
 import PqV.Gen.Access
 import Mathlib.Tactic.Linarith
-import Mathlib.Data.List.Induction
+import PqV.Lemmas.Access
 /-!
 # C06 — every partial read agrees with the corresponding part of the full read
 -/
@@ -110,49 +110,12 @@ theorem head_empty_fails_uninitialised (n : Nat) : head false [] n = none := rfl
 example : head true [[1, 2], [3], [4, 5, 6]] 4 = some [some 1, some 2, some 3, some 4] := by decide
 
 
-theorem getSlice_mem (rgs : List RG) (a b : Option Int) (k : Int) : ∀ rg ∈ getSlice rgs a b k, rg ∈ rgs := by
-  intro rg h
-  simp only [getSlice, List.mem_filterMap] at h
-  obtain ⟨i, _, hi⟩ := h
-  exact List.mem_of_getElem? hi
-
-theorem getInt_mem (rgs out : List RG) (i : Int) (h : getInt rgs i = some out) : ∀ rg ∈ out, rg ∈ rgs := by
-  simp only [getInt] at h
-  by_cases hj : (if i < 0 then i + (rgs.length : Int) else i) < 0
-  · rw [if_pos hj] at h; cases h
-  · rw [if_neg hj, Option.map_eq_some_iff] at h
-    obtain ⟨r, hr, rfl⟩ := h
-    intro rg hrg
-    simp only [List.mem_singleton] at hrg
-    subst hrg
-    exact List.mem_of_getElem? hr
-
-theorem filterMap_congr' {α β} (l : List α) (f g : α → Option β) (h : ∀ a ∈ l, f a = g a) : l.filterMap f = l.filterMap g := by
-  induction l with
-  | nil => rfl
-  | cons a t ih =>
-    simp only [List.filterMap_cons, h a List.mem_cons_self, ih (fun x hx => h x (List.mem_cons_of_mem _ hx))]
-
-theorem range_filterMap_getElem? (rgs : List RG) : (List.range rgs.length).filterMap (fun i => rgs[i]?) = rgs := by
-  induction rgs using List.reverseRecOn with
-  | nil => simp
-  | append_singleton l a ih =>
-    rw [List.length_append, List.length_singleton, List.range_succ, List.filterMap_append]
-    have h1 : (List.range l.length).filterMap (fun i => (l ++ [a])[i]?) = l := by
-      rw [filterMap_congr' _ _ (fun i => l[i]?)]
-      · exact ih
-      · intro j hj
-        have : j < l.length := by simpa using hj
-        rw [List.getElem?_append_left this]
-    rw [h1]
-    simp
-
 /-- a forward slice keeps the order of the dataset: the selected row groups are a sub-sequence -/
 theorem forward_slice_sublist (rgs : List RG) (a b : Option Int) (k : Int) (hk : 0 < k) :
     (getSlice rgs a b k).Sublist rgs := by
   simp only [getSlice, pySliceIdx, hk, if_true]
   refine (List.Sublist.filterMap (fun i => rgs[i]?) List.filter_sublist).trans ?_
-  rw [range_filterMap_getElem?]
+  rw [range_filterMap_getElem]
   exact List.Sublist.refl _
 
 /-- **every access program reads whole row groups of the dataset**: after any chain of slices and
